@@ -80,7 +80,7 @@ o.before('{', '''
 ''', start=o.find('pub fn into_inner(self)'), ind='    ')
 
 FRAME = '''        final(self).hist_() == old(self).hist_(), final(self).rst0_() == old(self).rst0_(), final(self).rel0_() == old(self).rel0_(),
-        hook_frame(old(self).inner(), final(self).inner(), res), final(self).inner().fobs() == old(self).inner().fobs(),'''
+        hook_frame(old(self).inner(), final(self).inner(), res), final(self).inner().fobs() == old(self).inner().fobs(), final(self).inner().config() == old(self).inner().config(),'''
 
 # ---- flush_eq
 fe = o.find('fn flush_eq(&mut self)')
@@ -206,6 +206,10 @@ closed spec fn replace_is_atomic() -> bool { true }
 /// the verified envelope: no verified caller can call it
 closed spec fn accepts_replace(&self) -> bool { false }
 #[verifier::prophetic] open spec fn fobs(&self) -> Obs<Self::Error> { self.inner().fobs() }
+/// configuration: the creator's ghost assignments and the inner hook's configuration
+closed spec fn config(&self) -> Self {
+    Replace { d: self.d.config(), del: None, ins: None, eq: None, hist: Ghost(Seq::empty()), em: Ghost(Seq::empty()), it0: Ghost(Seq::empty()), rst0: self.rst0, rel0: self.rel0 }
+}
 ''', '    ')
 
 def method(o, name, ev, flushes_first):
